@@ -68,7 +68,11 @@ CHECKS = {
                   "and after); hence so does Compact, their composition. Completeness: every examined message followed by a later examined "
                   "message with the same key is selected, so at most one message per key is left among those not newer than the cut-off "
                   "(and when the times of the live messages never decrease these are all of them: no two remaining messages not newer than "
-                  "the cut-off share a key - compact_updates_one_per_key). Tied to /repo by seeded histories over a small key alphabet with value-less messages and "
+                  "the cut-off share a key - compact_updates_one_per_key). compact.go's Compact (CompactUpdates, then CompactDeletes unless the "
+                  "first failed, then GC) is a step of the extended history theorem (XHistory.compact_both): in any state of a handle, for "
+                  "any two cut-offs, the log afterwards is the log before minus exactly what its passes removed; the harness calls the "
+                  "real Compact with cut-offs after every message and requires exactly the last valued message of every key to be left. "
+                  "Tied to /repo by seeded histories over a small key alphabet with value-less messages and "
                   "cut-offs around the time range: the key -> latest value map from a full scan before/after every Compact* call, the set "
                   "of removed offsets, compared with the extracted model and judged by check_latest_preserved / check_updates / "
                   "check_deletes on the implementation output.",
@@ -128,8 +132,14 @@ CHECKS = {
                   "(log file, then index file): after either step the directory is well formed and holds the same log - this is every "
                   "directory step of a Publish (rollover; publish_prog), and the first steps of a Delete that removes the newest message of "
                   "the writing segment (repair F8), for which the whole programs (new head, then in-place swap; new head, then removal of "
-                  "the old files) are proved crash-safe, so NextOffset never moves backwards. NOT proved: the step orders of "
-                  "Recover's and Migrate's own temporary files, and of index.Write - decided by the crash harness only. Tied to /repo by "
+                  "the old files) are proved crash-safe, so NextOffset never moves backwards. (4) Recover itself (RecoverCrash.v: "
+                  "Segment.Recover as a program of file-system steps on the log, the index, <log>.recover and <index>.tmp, index.Write "
+                  "included; the program is compared with the FS tap of the real Recover on every damaged head of the C05/C07/C13 runs): "
+                  "for ANY bytes in the log file, any or no index file, stale temporary files, any number of completed steps and any "
+                  "part of an append in flight, running Recover on what the crash left gives the same log file as the uninterrupted "
+                  "Recover and an index that is the same or absent, and the segment passes Check (recover_restartable); run to its end "
+                  "the program leaves exactly what Codec.recover_bytes computes. NOT proved: the step order of "
+                  "Migrate's temporary files - decided by the crash harness only. Tied to /repo by "
                   "the FS tap (tag verif): 40+ workloads (publish batches with rollover, all delete shapes, reopen with Recover, migrate), "
                   "the file-system steps of every Delete and every Publish compared with the programs CrashDir.delete_prog / publish_prog compute, a directory "
                   "image after every file-system step plus torn variants of every append; each image is opened with Recover on the "
@@ -137,7 +147,7 @@ CHECKS = {
                   "(published-and-not-deleted, prefix of in-flight batch, delete all-or-nothing), views agree, NextOffset monotone, "
                   "second Recover identical, append + Check + recover again. Known findings F6 and F14; five other defects were fixed.",
              ref='6/C05', technique='Coq proof (torn-append recovery on bytes; crash-safety of the swap programs on the directory) + exhaustive crash-image enumeration through an FS tap',
-             note="Recover's and Migrate's temporary-file protocols and index.Write are explored by enumeration of the implementation's own FS "
+             note="Migrate's temporary-file protocol is explored by enumeration of the implementation's own FS "
                   "events (every step, every torn append) on a finite set of workloads, not proved. " + COMMON_NOTE),
  'C06': dict(text="Partial. Proved (Coq): a clean log file cut at ANY byte at or after its header (what a power loss leaves when it keeps a "
                   "prefix at least as long as the fsynced length) is recovered to exactly the records lying entirely below the cut: a prefix "
@@ -165,9 +175,13 @@ CHECKS = {
                   "abstract steps: a successful Publish appends exactly its messages, a successful Delete removes exactly what it reported, "
                   "nothing else changes the live messages or NextOffset (history_refines) - in particular a Publish that fails, a batch "
                   "refused for an oversized message after the writing segment was rolled over included, publishes nothing; Consume/Get on any such state show exactly that "
-                  "abstract log, in strictly increasing offset order (C03/C04 theorems). Trim/compaction helpers are compositions of these "
-                  "calls (their loops are transcribed in Helpers.v and exercised by the correspondence; GC only drops caches and is a no-op "
-                  "of the model). Tied to /repo by seeded histories over all those operations incl. trims, compaction, GC and reopen with "
+                  "abstract log, in strictly increasing offset order (C03/C04 theorems). The helper calls - DeleteMulti, TrimByOffset/Count/"
+                  "Size/Age (Multi), CompactUpdates, CompactDeletes, Compact - and GC are steps of the same histories (XHistory.v, "
+                  "xhistory_refines): whatever a helper returns, also an error after some of its passes have removed messages, the log "
+                  "afterwards is the log before minus exactly the messages it reported, NextOffset unchanged (GC only drops caches: the "
+                  "identity of the model); the driver of the correspondence executes these very steps (xh_step). A message of exactly "
+                  "the maximal size (64 MiB, too large for the model) is published and read back on the implementation alone. "
+                  "Tied to /repo by seeded histories over all those operations incl. trims, compaction, GC and reopen with "
                   "random options: every result line is compared with the extracted model, and after every step a full scan of the "
                   "implementation is checked against the abstract log built only from what the implementation reported.",
              ref='6/C01', technique='Coq proof (history-level refinement to an abstract log by invariant) + differential correspondence with extracted model'),
@@ -201,7 +215,10 @@ CHECKS = {
                   "give ErrInvalidOffset, the empty set is a no-op; deleting offsets none of which is live (in particular deleting again) "
                   "deletes nothing and leaves the state as it is; DeleteMulti over any set of live offsets, spread over any number of "
                   "segments, removes all of them and nothing else, reports exactly them and no error (each pass makes progress on the "
-                  "lowest live offset). Tied to /repo by seeded histories with offset sets "
+                  "lowest live offset); DeleteMulti in ANY state of a handle, over ANY offset set and whatever it returns (also an "
+                  "error after some passes) has removed exactly the messages it reports (log_delete_multi_good). A Delete that is cut "
+                  "short (every file-system step of the delete workloads as the point where the call stops) is judged on the "
+                  "implementation: after Open(Recover) the log is the one before or the one after, nothing else is missing. Tied to /repo by seeded histories with offset sets "
                   "drawn by class (first/last/single/subset/range/all/tail/head/dead/unassigned/mixed), Delete and DeleteMulti results "
                   "compared with the extracted model and evaluated by check_delete/check_delete_multi with the exact per-message source "
                   "format read from the file headers.",
